@@ -9,7 +9,7 @@ from weakref import WeakSet
 
 # Local imports
 from .datatype import datatype, AllowArbConfig
-from .connect import connectable
+from .connect import connectable, OrderedSet
 from .sliceable import sliceable, is_sliceable
 from .concat import concatable
 
@@ -46,7 +46,7 @@ class Slice:
     def __post_init__(self):
         if not is_sliceable(self.parent):
             raise TypeError(f"{self.parent} is not Sliceable")
-        self._connected_ports: Set["PortRef"] = set()
+        self._connected_ports: Set["PortRef"] = OrderedSet()
         self._inner: Optional[SliceInner] = None
         self._slices: WeakSet[Slice] = set()
         self._concats: WeakSet["Concat"] = set()
